@@ -229,7 +229,7 @@ def generate(r, tier, index):
     known = vals if vals is not None else partial
     if len(base_evals) >= 2 and r.random() < 0.6:
         first = base_evals[0]
-        if first['where'] == 'top' and known and first['key'] in known:
+        if first['where'] == 'top' and known and first['key'] in known and 'call_after' not in first:
             kd = {'int': 'int', 'str': 'str', 'bool': 'bool'}.get(known[first['key']][0]) if isinstance(known[first['key']], list) else None
             if kd:
                 env1 = dict(env0)
